@@ -315,12 +315,12 @@ Theorem C05_site_swift_alias :
 Proof. exact Proofs.C05_Sites.C05_site_sw_alias. Qed.
 Print Assumptions C05_site_swift_alias.
 
-(* whenever the variant is produced at all (a variant NAME can make to_camel_case panic: C07) *)
+(* the variant is always produced (a variant NAME can no longer make to_camel_case panic: fixed in /repo, C07) *)
 Theorem C05_site_swift_payload :
-  forall (uc : unicode) (cfg : sw_config) (sh : eshared) (t : rtype) (vsh : vshared) (st : sw_state) (v : sw_variant) (st' : sw_state),
+  forall (uc : unicode) (cfg : sw_config) (sh : eshared) (t : rtype) (vsh : vshared),
     dom_C05 t = true -> known_C05 Swift (Proofs.C05_Back.c05_sw_cfg cfg) (egenerics sh) t = None ->
-    sw_variant_of uc cfg sh (VTuple t vsh) st = Ok (v, st') ->
-    exists esc opt, swv_payload v = SWPTuple (c05_erase Swift (Proofs.C05_Back.c05_sw_cfg cfg) (egenerics sh) t) esc opt.
+    forall st, exists v st', sw_variant_of uc cfg sh (VTuple t vsh) st = Ok (v, st') /\
+      exists esc opt, swv_payload v = SWPTuple (c05_erase Swift (Proofs.C05_Back.c05_sw_cfg cfg) (egenerics sh) t) esc opt.
 Proof. exact Proofs.C05_Sites.C05_site_sw_payload. Qed.
 Print Assumptions C05_site_swift_payload.
 
